@@ -313,6 +313,7 @@ func c11(c *Ctx) {
 	scope, names := c.c11Scope()
 	tb := ir.NewTB(c.P.IsRepoFunc, c.P.FuncKey)
 	tb.InlineMaxBlocks = 0
+	tb.ParamCallers = c.StaticCallers // a helper extracted from one caller reads like the inlined code
 	sites, discharged := c.partialSites(scope, tb)
 	sort.Slice(sites, func(i, j int) bool { return c.FK(sites[i].fn)+sites[i].what < c.FK(sites[j].fn)+sites[j].what })
 	for _, n := range names {
@@ -345,8 +346,8 @@ var c11Table = []obligation{
 	{"curves.LinearSpeedCurve).Evaluate", "getter-deref", "sensors.GetSensor", "linear.sensor", "exists:sensorIdExists:Linear", "the sensor is looked up by id and used without an ok test"},
 	{"curves.PidSpeedCurve).Evaluate", "getter-deref", "sensors.GetSensor", "pid.sensor", "exists:sensorIdExists:PID", "the sensor is looked up by id and used without an ok test"},
 	{"util.CalculateInterpolatedCurveValue", "index", "bin:-(builtin:len(", "linear.steps", "lenpos:Steps(field:Linear", "the last step is indexed: a non-nil empty steps map must be rejected"},
-	{"util.FindClosest", "index", "#arr[0]", "fan.pwmMap", "lenpos:PwmMap(", "the key list derived from an empty pwmMap override is empty"},
-	{"util.FindClosest", "index", "#arr[bin:-(builtin:len(", "fan.pwmMap", "lenpos:PwmMap(", "the key list derived from an empty pwmMap override is empty"},
+	{"util.FindClosest", "index", "[0]", "fan.pwmMap", "lenpos:PwmMap(", "the key list derived from an empty pwmMap override is empty"},
+	{"util.FindClosest", "index", "[bin:-(builtin:len(", "fan.pwmMap", "lenpos:PwmMap(", "the key list derived from an empty pwmMap override is empty"},
 	{"util.FindClosest", "index", "", "", "notdecided", "interior indexes of the binary search need the relational invariant i<j<=n (functional correctness of the search: C12, not decided)"},
 }
 
@@ -429,7 +430,7 @@ func (c *Ctx) c11Decide(sites []partialSite, tb *ir.TB) {
 		idx := -1
 		for i := range c11Table {
 			o := &c11Table[i]
-			if strings.HasSuffix(fk, o.fnSuffix) && o.kind == s.kind && (o.operand == "" || strings.Contains(s.what, o.operand)) {
+			if c.inAnchorTree(s.fn, o.fnSuffix) && o.kind == s.kind && (o.operand == "" || strings.Contains(s.what, o.operand)) {
 				ob, idx = o, i
 				break
 			}
@@ -870,4 +871,30 @@ func reachesWithinLoop(from, head *ssa.BasicBlock) bool {
 		return false
 	}
 	return walk(from)
+}
+
+// inAnchorTree: fn is the anchor function named by suffix, or a repository function in its call tree
+// (a block of the anchor extracted into a helper keeps its table entry).
+func (c *Ctx) inAnchorTree(fn *ssa.Function, suffix string) bool {
+	if strings.HasSuffix(c.FK(fn), suffix) {
+		return true
+	}
+	if c.anchorTrees == nil {
+		c.anchorTrees = map[string]map[*ssa.Function]bool{}
+	}
+	tree, ok := c.anchorTrees[suffix]
+	if !ok {
+		var roots []*ssa.Function
+		for _, f := range c.P.Funcs {
+			if strings.HasSuffix(c.FK(f), suffix) {
+				roots = append(roots, f)
+			}
+		}
+		tree = c.Closure(roots, true, func(f *ssa.Function) bool {
+			// stay inside the anchor's package: library-like helpers of other packages have their own entries
+			return len(roots) > 0 && load_FuncPkgPath(f) != load_FuncPkgPath(roots[0])
+		})
+		c.anchorTrees[suffix] = tree
+	}
+	return tree[fn]
 }
